@@ -18,6 +18,13 @@ for pid in sorted(PROPS):
         "level_note": t["level_note"],
         "technique": t["technique"],
     })
+import json as _j
+all_ids = [_j.loads(l)["id"] for l in open(os.path.join(os.path.dirname(os.path.abspath(__file__)), "properties.jsonl"))]
+na = list(NOT_APPLICABLE)
+for i in all_ids:
+    if i not in PROPS and not any(n["property_id"] == i for n in na):
+        na.append({"property_id": i, "reason": "not claimed yet: the monitor for this property is not built/registered at this commit (see DESIGN.md section 7 for its design)"})
+NOT_APPLICABLE = na
 m = {
     "version": 1,
     "setup_cmd": "./setup.sh",
